@@ -27,6 +27,13 @@ var c14Data = map[string]map[int]float64{
 	"v1": {0: 0, 128: 1500, 255: 3000},
 	"v2": {-5: 12.5, 1000: 1e9, 7: 0.001, 42: 1234.5678},
 	"v3": {},
+	"vf": func() map[int]float64 {
+		m := map[int]float64{}
+		for i := 0; i <= 255; i++ {
+			m[i] = float64(i)
+		}
+		return m
+	}(),
 }
 var c14Maps = map[string]map[int]int{
 	"v1": {0: 0, 64: 128, 255: 255},
@@ -75,7 +82,35 @@ var c14IdSets = []map[string]string{
 
 func (d *c14DB) real(id string) string { return c14IdSets[d.idset%len(c14IdSets)][id] }
 
+// kindOf: in every fourth scenario fan "b" is a command fan and fan "c" a file fan (their RPM curve data is not measured:
+// what is stored for them is the fan's built-in linear curve, value token "vf")
+func (d *c14DB) kindOf(id string) string {
+	if d.idset%4 == 3 {
+		switch id {
+		case "b":
+			return "cmd"
+		case "c":
+			return "file"
+		}
+	}
+	return "hwmon"
+}
+
+// stored returns the value token that a save of kind k with token v leaves in the database
+func (d *c14DB) stored(k, id, v string) string {
+	if k == "data" && d.kindOf(id) != "hwmon" {
+		return "vf"
+	}
+	return v
+}
+
 func (d *c14DB) fan(id string, data map[int]float64) fans.Fan {
+	switch d.kindOf(id) {
+	case "file":
+		return &fans.FileFan{Config: configuration.FanConfig{ID: d.real(id), File: &configuration.FileFanConfig{Path: "/nonexistent"}}}
+	case "cmd":
+		return &fans.CmdFan{Config: configuration.FanConfig{ID: d.real(id), Cmd: &configuration.CmdFanConfig{}}}
+	}
 	f := &fans.HwMonFan{Config: configuration.FanConfig{ID: d.real(id)}}
 	if data != nil {
 		cp := map[int]float64{}
@@ -205,7 +240,7 @@ func TestDriveC14(t *testing.T) {
 			switch x := r.Intn(10); {
 			case x < 4:
 				v := c14Vals[r.Intn(3)]
-				rec.Emit(Ev{"ev": "Op", "op": "save", "k": k, "f": f, "v": v, "res": errOf(d.save(k, f, v)), "got": ""})
+				rec.Emit(Ev{"ev": "Op", "op": "save", "k": k, "f": f, "v": d.stored(k, f, v), "res": errOf(d.save(k, f, v)), "got": ""})
 			case x < 6:
 				rec.Emit(Ev{"ev": "Op", "op": "delete", "k": k, "f": f, "v": "", "res": errOf(d.del(k, f)), "got": ""})
 			case x < 7:
@@ -236,7 +271,7 @@ func TestDriveC14(t *testing.T) {
 			for _, f := range c14Fans {
 				if r.Intn(2) == 0 {
 					v := c14Vals[r.Intn(3)]
-					rec.Emit(Ev{"ev": "Op", "op": "save", "k": k, "f": f, "v": v, "res": errOf(d.save(k, f, v)), "got": ""})
+					rec.Emit(Ev{"ev": "Op", "op": "save", "k": k, "f": f, "v": d.stored(k, f, v), "res": errOf(d.save(k, f, v)), "got": ""})
 				}
 			}
 		}
@@ -264,7 +299,7 @@ func TestDriveC14(t *testing.T) {
 					break
 				}
 			} else if len(parts) == 4 && parts[0] == "done" {
-				rec.Emit(Ev{"ev": "Op", "op": "save", "k": parts[1], "f": parts[2], "v": parts[3], "res": "ok", "got": ""})
+				rec.Emit(Ev{"ev": "Op", "op": "save", "k": parts[1], "f": parts[2], "v": d.stored(parts[1], parts[2], parts[3]), "res": "ok", "got": ""})
 				inflight = nil
 			}
 		}
@@ -274,13 +309,13 @@ func TestDriveC14(t *testing.T) {
 			if len(parts) == 4 && parts[0] == "begin" {
 				inflight = &sv{parts[1], parts[2], parts[3]}
 			} else if len(parts) == 4 && parts[0] == "done" {
-				rec.Emit(Ev{"ev": "Op", "op": "save", "k": parts[1], "f": parts[2], "v": parts[3], "res": "ok", "got": ""})
+				rec.Emit(Ev{"ev": "Op", "op": "save", "k": parts[1], "f": parts[2], "v": d.stored(parts[1], parts[2], parts[3]), "res": "ok", "got": ""})
 				inflight = nil
 			}
 		}
 		_ = cmd.Wait()
 		if inflight != nil {
-			rec.Emit(Ev{"ev": "Op", "op": "crashsave", "k": inflight.k, "f": inflight.f, "v": inflight.v, "res": "killed", "got": ""})
+			rec.Emit(Ev{"ev": "Op", "op": "crashsave", "k": inflight.k, "f": inflight.f, "v": d.stored(inflight.k, inflight.f, inflight.v), "res": "killed", "got": ""})
 		}
 		// a fresh view reads everything back
 		d.p = persistence.NewPersistence(d.path)
@@ -354,7 +389,7 @@ func TestReplayC14(t *testing.T) {
 			k, fn, v := o["k"], o["f"], o["v"]
 			switch o["op"] {
 			case "save":
-				rec.Emit(Ev{"ev": "Op", "op": "save", "k": k, "f": fn, "v": v, "res": errOf(d.save(k, fn, v)), "got": ""})
+				rec.Emit(Ev{"ev": "Op", "op": "save", "k": k, "f": fn, "v": d.stored(k, fn, v), "res": errOf(d.save(k, fn, v)), "got": ""})
 			case "delete":
 				rec.Emit(Ev{"ev": "Op", "op": "delete", "k": k, "f": fn, "v": "", "res": errOf(d.del(k, fn)), "got": ""})
 			case "damage":
